@@ -119,10 +119,26 @@ package fasthttp
 //@   mode skeleton
 //@   holds cm.cacheLock
 
-//@ func inMemoryCacheManager.collectAllFilesToReleaseNolock
+// collectAllFilesToReleaseNolock (Close / CleanStop): the release list grows only through the helpers that look at
+// each file's reader count; files that still have readers stay pending.
+//@ func inMemoryCacheManager.collectAllFilesToReleaseNolock results r
 //@   property C25
 //@   mode skeleton
+//@   nooverflow
 //@   holds cm.cacheLock
+//@   ghost viaHelpers int = 0
+//@   on call inMemoryCacheManager.collectCacheFilesToReleaseNolock(_, c, l) -> out:
+//@     nohavoc
+//@     effect viaHelpers = viaHelpers + (len(out) - len(l))
+//@     ensures len(out) >= len(l)
+//@   on call inMemoryCacheManager.addFileToReleaseNolock(_, l, f) -> out:
+//@     nohavoc
+//@     effect viaHelpers = viaHelpers + (len(out) - len(l))
+//@     ensures len(out) >= len(l)
+//@   end
+//@   loop 1:
+//@     invariant[growth-accounted] len(filesToRelease) == len(old(filesToRelease)) + viaHelpers
+//@   ensures[release-only-after-reader-check] len(r) == len(filesToRelease) + viaHelpers
 
 //@ func inMemoryCacheManager.cleanCacheNolock
 //@   property C25
